@@ -85,7 +85,9 @@ pub struct ValueProbe {
     pub site: String,
     #[serde(default)]
     pub input: Option<Value>,
-    pub expect: Vec<(String, Value, String)>,
+    /// (member, schema default, class of the site, the default with omitted
+    /// members filled in from THEIR schema defaults)
+    pub expect: Vec<(String, Value, String, Value)>,
 }
 
 #[derive(Debug, Clone, Default, Serialize)]
@@ -928,7 +930,7 @@ impl<'d> Session<'d> {
                         kind: "type-default".into(),
                         site: site.clone(),
                         input: None,
-                        expect: vec![(String::new(), d.clone(), model::site_class(&stripped, d, &defs))],
+                        expect: vec![(String::new(), d.clone(), model::site_class(&stripped, d, &defs), model::fill_nested_defaults(d, &stripped, &defs, 0))],
                     });
                 }
             }
@@ -973,7 +975,7 @@ impl<'d> Session<'d> {
                 if let Some(d) = ps.get("default") {
                     let stripped = strip(ps);
                     if model::validate(&stripped, d, &defs, 0) == Some(true) {
-                        expect.push((p.clone(), d.clone(), model::site_class(&stripped, d, &defs)));
+                        expect.push((p.clone(), d.clone(), model::site_class(&stripped, d, &defs), model::fill_nested_defaults(d, &stripped, &defs, 0)));
                     }
                 }
             }
@@ -1141,6 +1143,15 @@ pub fn run_ops(settings: &SettingsDesc, ops: &[Op], faults_mode: bool) -> Outcom
 pub fn run_ops_variant(settings: &SettingsDesc, ops: &[Op], faults_mode: bool) -> Outcome {
     IS_VARIANT.with(|v| v.set(true));
     run_ops_inner(settings, ops, faults_mode, true)
+}
+
+/// The same run with every default annotation removed (value stage: does the
+/// output compile without the defaults?).
+pub fn without_defaults(desc: &RunDesc) -> RunDesc {
+    let mut d = desc.clone();
+    d.ops = strip_ops(&desc.ops, &|_, _, _| false);
+    d.variant = None;
+    d
 }
 
 fn strip_ops(ops: &[Op], keep: &dyn Fn(&str, &str, Option<bool>) -> bool) -> Vec<Op> {
